@@ -125,9 +125,9 @@ PIXMAN_EXPORT void
 pixman_edge_step (pixman_edge_t *e,
                   int            n)
 {
-    pixman_fixed_48_16_t ne;
+    pixman_fixed_48_16_t ne, x;
 
-    e->x = clamp_edge_x (e->x + n * (pixman_fixed_48_16_t) e->stepx);
+    x = e->x + n * (pixman_fixed_48_16_t) e->stepx;
 
     ne = e->e + n * (pixman_fixed_48_16_t) e->dx;
 
@@ -135,20 +135,22 @@ pixman_edge_step (pixman_edge_t *e,
     {
 	if (ne > 0)
 	{
-	    int nx = (ne + e->dy - 1) / e->dy;
+	    pixman_fixed_48_16_t nx = (ne + e->dy - 1) / e->dy;
 	    e->e = ne - nx * (pixman_fixed_48_16_t) e->dy;
-	    e->x += nx * e->signdx;
+	    x += nx * e->signdx;
 	}
     }
     else
     {
 	if (ne <= -e->dy)
 	{
-	    int nx = (-ne) / e->dy;
+	    pixman_fixed_48_16_t nx = (-ne) / e->dy;
 	    e->e = ne + nx * (pixman_fixed_48_16_t) e->dy;
-	    e->x -= nx * e->signdx;
+	    x -= nx * e->signdx;
 	}
     }
+
+    e->x = clamp_edge_x (x);
 }
 
 /*
@@ -161,21 +163,21 @@ _pixman_edge_multi_init (pixman_edge_t * e,
                          pixman_fixed_t *stepx_p,
                          pixman_fixed_t *dx_p)
 {
-    pixman_fixed_t stepx;
+    pixman_fixed_48_16_t stepx;
     pixman_fixed_48_16_t ne;
 
     ne = n * (pixman_fixed_48_16_t) e->dx;
-    stepx = n * e->stepx;
+    stepx = n * (pixman_fixed_48_16_t) e->stepx;
 
     if (ne > 0)
     {
-	int nx = ne / e->dy;
+	pixman_fixed_48_16_t nx = ne / e->dy;
 	ne -= nx * (pixman_fixed_48_16_t)e->dy;
 	stepx += nx * e->signdx;
     }
 
     *dx_p = ne;
-    *stepx_p = stepx;
+    *stepx_p = clamp_to_fixed (stepx);
 }
 
 /*
